@@ -96,7 +96,14 @@ pub fn trial(net: &mut Net, b: u64, kind: &'static str, writer: usize, reader: u
     net.sim.run_calls(&mut [&mut put], 60_000);
     let put_done = put.done_ns().unwrap_or(net.sim.now_ns());
     let acks = ackers(net, writer, &st.target, log0, put_done);
-    net.sim.run_for(rng.range(100, 3000));
+    // the get may come right away, a minute later, or after several maintenance rounds
+    let delay_ms = match b % 5 {
+        0 | 1 => rng.range(100, 3000),
+        2 => rng.range(46_000, 70_000),
+        3 => rng.range(330_000, 400_000),
+        _ => rng.range(930_000, 1_000_000),
+    };
+    net.sim.run_for(delay_ms);
     for &c in crash {
         net.sim.crash(c);
     }
@@ -123,7 +130,7 @@ pub fn trial(net: &mut Net, b: u64, kind: &'static str, writer: usize, reader: u
         "live_ackers_other_than_reader": acks.iter().filter(|a| alive.contains(a) && **a != raddr).count(),
         "crashed": crash.iter().map(|&c| net.sim.nodes[c].addr.to_string()).collect::<Vec<_>>(),
         "reader_knows_live": knows_live, "get_done": done, "found": found(&get, &st.expect), "items": get.items.len(),
-        "concurrent": concurrent, "panicked": net.sim.nodes.iter().any(|n| n.panicked)})
+        "concurrent": concurrent, "delay_ms": delay_ms, "panicked": net.sim.nodes.iter().any(|n| n.panicked)})
 }
 
 pub fn run(args: &Args) -> i32 {
